@@ -2,7 +2,13 @@ package rules
 
 import (
 	"fmt"
+	"go/ast"
 	"go/token"
+	"go/types"
+	"sort"
+	"strconv"
+	"strings"
+	"unicode"
 
 	"golang.org/x/tools/go/ssa"
 
@@ -173,5 +179,956 @@ func RFailProp(c *core.Ctx) {
 	}
 	if n == 0 {
 		c.Anchor("recursive calls in syntax.tryFindFirstCharClass")
+	}
+}
+
+// ---------------------------------------------------------------------------
+// R-LOOPSIB: the loop a "literal after the leading loop" is published for is
+// the FIRST CHILD of the concatenation whose following child yields the
+// literal.  The walk from that child down to the loop may only pass nodes that
+// wrap exactly one child and have no say in control flow (Atomic, Capture,
+// Group).  A helper that also steps into the first child of a nested
+// concatenation takes the loop out of a leading group `(\w+:)//`: what follows
+// the loop is then `:`, not the literal `//` that was published.
+// ---------------------------------------------------------------------------
+
+var singleChildWrappers = map[string]string{
+	"NtAtomic":  "one child; only removes backtracking",
+	"NtCapture": "one child; only records positions",
+	"NtGroup":   "one child; no effect",
+}
+
+// wrapperOnlyDescent: every `v = v.Children[k]` in body (v one of vars) stands
+// under a condition that restricts v.T to single-child wrappers.
+func wrapperOnlyDescent(info *types.Info, body *ast.BlockStmt, v types.Object) (bool, token.Pos, string) {
+	ok := true
+	var at token.Pos
+	why := ""
+	var walk func(n ast.Node, guards []ast.Expr)
+	isWrapperCond := func(cond ast.Expr) bool {
+		// a disjunction (possibly conjoined with other tests) of v.T == K, K a wrapper kind
+		for _, cj := range conjuncts(cond) {
+			all := true
+			some := false
+			var dis func(e ast.Expr)
+			dis = func(e ast.Expr) {
+				e = ast.Unparen(e)
+				if be, isB := e.(*ast.BinaryExpr); isB && be.Op == token.LOR {
+					dis(be.X)
+					dis(be.Y)
+					return
+				}
+				be, isB := e.(*ast.BinaryExpr)
+				if !isB || be.Op != token.EQL {
+					all = false
+					return
+				}
+				sel, isS := ast.Unparen(be.X).(*ast.SelectorExpr)
+				if !isS || sel.Sel.Name != "T" {
+					all = false
+					return
+				}
+				if id, isI := ast.Unparen(sel.X).(*ast.Ident); !isI || info.ObjectOf(id) != v {
+					all = false
+					return
+				}
+				kid, isI := ast.Unparen(be.Y).(*ast.Ident)
+				if !isI {
+					all = false
+					return
+				}
+				if _, listed := singleChildWrappers[kid.Name]; !listed {
+					all = false
+					return
+				}
+				some = true
+			}
+			dis(cj)
+			if all && some {
+				return true
+			}
+		}
+		return false
+	}
+	walk = func(n ast.Node, guards []ast.Expr) {
+		switch x := n.(type) {
+		case nil:
+			return
+		case *ast.BlockStmt:
+			for _, st := range x.List {
+				walk(st, guards)
+			}
+		case *ast.ForStmt:
+			g := guards
+			if x.Cond != nil {
+				g = append(append([]ast.Expr(nil), guards...), x.Cond)
+			}
+			walk(x.Body, g)
+		case *ast.IfStmt:
+			walk(x.Body, append(append([]ast.Expr(nil), guards...), x.Cond))
+			if x.Else != nil {
+				walk(x.Else, guards)
+			}
+		case *ast.SwitchStmt:
+			for _, cs := range x.Body.List {
+				cc := cs.(*ast.CaseClause)
+				g := guards
+				// switch v.T { case NtAtomic, NtCapture: v = v.Children[0] }
+				if sel, isS := ast.Unparen(x.Tag).(*ast.SelectorExpr); x.Tag != nil && isS && sel.Sel.Name == "T" && len(cc.List) > 0 {
+					var cond ast.Expr
+					for _, e := range cc.List {
+						eq := &ast.BinaryExpr{X: x.Tag, Op: token.EQL, Y: e}
+						if cond == nil {
+							cond = eq
+						} else {
+							cond = &ast.BinaryExpr{X: cond, Op: token.LOR, Y: eq}
+						}
+					}
+					g = append(append([]ast.Expr(nil), guards...), cond)
+				}
+				for _, st := range cc.Body {
+					walk(st, g)
+				}
+			}
+		case *ast.AssignStmt:
+			for i, l := range x.Lhs {
+				id, isI := l.(*ast.Ident)
+				if !isI || info.ObjectOf(id) != v || i >= len(x.Rhs) {
+					continue
+				}
+				ie, isIdx := ast.Unparen(x.Rhs[i]).(*ast.IndexExpr)
+				if !isIdx {
+					continue
+				}
+				sel, isS := ast.Unparen(ie.X).(*ast.SelectorExpr)
+				if !isS || sel.Sel.Name != "Children" {
+					continue
+				}
+				if bid, isB := ast.Unparen(sel.X).(*ast.Ident); !isB || info.ObjectOf(bid) != v {
+					continue
+				}
+				// v = v.Children[k]: a descent
+				guarded := false
+				for _, g := range guards {
+					if isWrapperCond(g) {
+						guarded = true
+					}
+				}
+				if !guarded {
+					ok = false
+					at = x.Pos()
+					why = "`" + types.ExprString(x.Lhs[i]) + " = " + types.ExprString(x.Rhs[i]) + "` is not under a test that the node is a single-child wrapper (" + wrapperKindList() + ")"
+				}
+			}
+		case *ast.LabeledStmt:
+			walk(x.Stmt, guards)
+		case *ast.RangeStmt:
+			walk(x.Body, guards)
+		}
+	}
+	walk(body, nil)
+	return ok, at, why
+}
+
+func wrapperKindList() string {
+	var ks []string
+	for k := range singleChildWrappers {
+		ks = append(ks, k)
+	}
+	sort.Strings(ks)
+	return strings.Join(ks, ", ")
+}
+
+func RLoopSib(c *core.Ctx) {
+	c.Rule("R-LOOPSIB", "wherever a LiteralAfterLoop is published, its LoopNode is the first child of the concatenation under analysis, reached from `X.Children[0]` only through single-child wrappers (Atomic, Capture, Group) — by an inline loop under that test or by a helper whose own descents are all under it; never through a helper that steps into the first child of a nested concatenation (the literal then no longer follows the loop)", 1)
+	p := c.P
+	syn := p.Pkg("syntax")
+	info := syn.TypesInfo
+	n := 0
+	helperOK := map[*types.Func]bool{}
+	helperWhy := map[*types.Func]string{}
+	checkHelper := func(fn *types.Func) bool {
+		if v, done := helperOK[fn]; done {
+			return v
+		}
+		helperOK[fn] = false
+		fd, _ := p.DeclOf(fn)
+		if fd == nil || fd.Body == nil || fd.Type.Params == nil || len(fd.Type.Params.List) == 0 || len(fd.Type.Params.List[0].Names) == 0 {
+			helperWhy[fn] = "no body"
+			return false
+		}
+		prm := info.ObjectOf(fd.Type.Params.List[0].Names[0])
+		ok, _, why := wrapperOnlyDescent(info, fd.Body, prm)
+		// the helper must hand back its (descended) parameter or nil, nothing else
+		ast.Inspect(fd.Body, func(x ast.Node) bool {
+			rs, isR := x.(*ast.ReturnStmt)
+			if !isR || len(rs.Results) != 1 {
+				return true
+			}
+			if id, isI := ast.Unparen(rs.Results[0]).(*ast.Ident); isI && (info.ObjectOf(id) == prm || isNilIdent(info, id)) {
+				return true
+			}
+			ok = false
+			why = "returns something other than the node it was given"
+			return true
+		})
+		helperOK[fn] = ok
+		helperWhy[fn] = why
+		return ok
+	}
+	for _, fd := range p.FuncDecls(syn) {
+		if fd.Body == nil || p.IsTestFile(fd.Pos()) {
+			continue
+		}
+		name := core.DeclName(syn, fd)
+		// LoopNode values of LiteralAfterLoop literals in this function
+		loopVars := map[types.Object]token.Pos{}
+		ast.Inspect(fd.Body, func(x ast.Node) bool {
+			cl, ok := x.(*ast.CompositeLit)
+			if !ok || !core.IsNamed(info.TypeOf(cl), core.PkgSyntax, "LiteralAfterLoop") {
+				return true
+			}
+			for _, e := range cl.Elts {
+				kv, ok := e.(*ast.KeyValueExpr)
+				if !ok {
+					continue
+				}
+				if k, ok := kv.Key.(*ast.Ident); ok && k.Name == "LoopNode" {
+					if id, ok := ast.Unparen(kv.Value).(*ast.Ident); ok {
+						if _, seen := loopVars[info.ObjectOf(id)]; !seen {
+							loopVars[info.ObjectOf(id)] = kv.Pos()
+						}
+					} else {
+						n++
+						c.Unknown(fmt.Sprintf("%s / LoopNode %s", name, types.ExprString(kv.Value)), kv.Pos(), "the published loop is not a local variable: its derivation is not followed")
+					}
+				}
+			}
+			return true
+		})
+		for v := range loopVars {
+			n++
+			c.Visit(name)
+			key := fmt.Sprintf("%s / published LoopNode %s is the concatenation's first child behind single-child wrappers only", name, v.Name())
+			ok, at, why := wrapperOnlyDescent(info, fd.Body, v)
+			// its initial value: X.Children[0], or helper(X.Children[0]) with a wrapper-only helper
+			ast.Inspect(fd.Body, func(x ast.Node) bool {
+				as, isA := x.(*ast.AssignStmt)
+				if !isA {
+					return true
+				}
+				for i, l := range as.Lhs {
+					id, isI := l.(*ast.Ident)
+					if !isI || info.ObjectOf(id) != v || i >= len(as.Rhs) {
+						continue
+					}
+					rhs := ast.Unparen(as.Rhs[i])
+					if call, isC := rhs.(*ast.CallExpr); isC {
+						fn := core.Callee(info, call)
+						if fn == nil || fn.Pkg() != syn.Types || len(call.Args) != 1 {
+							ok, at, why = false, as.Pos(), "assigned from a call that is not followed"
+							continue
+						}
+						if !checkHelper(fn) {
+							ok, at, why = false, as.Pos(), "assigned through "+fn.Name()+", which is not a pure single-child unwrapping: "+helperWhy[fn]
+						}
+						rhs = ast.Unparen(call.Args[0])
+					}
+					ie, isIdx := rhs.(*ast.IndexExpr)
+					if !isIdx {
+						ok, at, why = false, as.Pos(), "not derived from an element of Children"
+						continue
+					}
+					sel, isS := ast.Unparen(ie.X).(*ast.SelectorExpr)
+					if !isS || sel.Sel.Name != "Children" {
+						ok, at, why = false, as.Pos(), "not derived from an element of Children"
+						continue
+					}
+					if bid, isB := ast.Unparen(sel.X).(*ast.Ident); isB && info.ObjectOf(bid) == v {
+						continue // a descent: judged above
+					}
+					if k, isK := core.ConstInt(info, ie.Index); !isK || k != 0 {
+						ok, at, why = false, as.Pos(), "not the FIRST child"
+					}
+				}
+				return true
+			})
+			if ok {
+				c.OK(key, loopVars[v], "derived from Children[0] through single-child wrappers")
+			} else {
+				c.Bad(key, at, "%s: the loop may come from inside a leading group, and the literal published with it does not directly follow it", why)
+			}
+		}
+	}
+	if n == 0 {
+		c.Anchor("LiteralAfterLoop literals with a LoopNode in package syntax")
+	}
+}
+
+// ---------------------------------------------------------------------------
+// R-BOUNDSET: a loop is made atomic in front of \b only when EVERY character
+// of its class is a word character (then the boundary can only hold at the
+// end of the run and giving characters back cannot help).  The code states
+// this by identity with a predefined class: n.Set.Equals(WordClass()) etc.
+// The rule enumerates, in canBeMadeAtomic, every conjunction that tests the
+// successor against a boundary kind and requires that the loop's set enters it
+// only through Equals with a predefined class listed for that kind, and the
+// loop's character only through the word predicate of that dialect.  The
+// listed classes are checked against the source: the categories of DigitClass
+// are among those IsWordChar tests, the ECMAScript digit ranges lie inside the
+// ECMAScript word ranges.  A predicate that samples the class (range end
+// points, a few characters) lets [A-z]+\b become atomic although [ \ ] ^ `
+// are not word characters.
+// ---------------------------------------------------------------------------
+
+var boundaryClassTable = map[string]map[string]string{
+	"NtBoundary": {
+		"WordClass":  "the class \\b itself is defined with (R-WORDSIB ties IsWordChar to WordClass)",
+		"DigitClass": "Nd is one of the categories of a word character (checked against IsWordChar)",
+	},
+	"NtECMABoundary": {
+		"ECMAWordClass":  "the class ECMAScript \\b is defined with",
+		"ECMADigitClass": "0-9 lies inside the ECMAScript word ranges (checked against the range tables)",
+	},
+	// the negated boundaries are judged by R-ATOMSUCC (K1); here only the form is required
+	"NtNonboundary":     {"NotWordClass": "form only (see R-ATOMSUCC)", "NotDigitClass": "form only (see R-ATOMSUCC)"},
+	"NtNonECMABoundary": {"NotECMAWordClass": "form only (see R-ATOMSUCC)", "NotDigitClass": "form only (see R-ATOMSUCC)", "NotECMADigitClass": "form only (see R-ATOMSUCC)"},
+}
+
+var boundaryPredTable = map[string]string{
+	"NtBoundary": "IsWordChar", "NtNonboundary": "IsWordChar",
+	"NtECMABoundary": "IsECMAWordChar", "NtNonECMABoundary": "IsECMAWordChar",
+}
+
+func RBoundSet(c *core.Ctx) {
+	c.Rule("R-BOUNDSET", "in canBeMadeAtomic a loop's class is related to a word-boundary successor only by identity with a predefined class (n.Set.Equals(WordClass()), …DigitClass()) listed for that boundary kind, and a loop's character only by the word predicate of that dialect; the listed classes are verified against the source to consist of word characters only. No predicate that samples the class (end points of its ranges, some of its characters) may stand in", 6)
+	p := c.P
+	syn := p.Pkg("syntax")
+	info := syn.TypesInfo
+	fd, _ := p.DeclOf(p.LookupFunc("syntax", "RegexNode.canBeMadeAtomic"))
+	tField := p.LookupField("syntax", "RegexNode", "T")
+	equals := p.LookupFunc("syntax", "CharSet.Equals")
+	if fd == nil || tField == nil || equals == nil {
+		c.Anchor("syntax.RegexNode.canBeMadeAtomic / RegexNode.T / CharSet.Equals")
+		return
+	}
+	c.Visit("syntax.(*RegexNode).canBeMadeAtomic")
+	mentionsSetOrCh := func(e ast.Expr) (set, ch bool) {
+		ast.Inspect(e, func(x ast.Node) bool {
+			if sel, ok := x.(*ast.SelectorExpr); ok {
+				if f := core.FieldOf(info, sel); f != nil && core.IsNamed(info.TypeOf(sel.X), core.PkgSyntax, "RegexNode") {
+					switch core.BaseName(f) {
+					case "Set":
+						set = true
+					case "Ch":
+						ch = true
+					}
+				}
+			}
+			return true
+		})
+		return
+	}
+	// classNames: e is a disjunction of S.Equals(P()) (helpers that are one such return are followed)
+	var classNames func(e ast.Expr, depth int) ([]string, bool)
+	classNames = func(e ast.Expr, depth int) ([]string, bool) {
+		e = ast.Unparen(e)
+		if be, ok := e.(*ast.BinaryExpr); ok && be.Op == token.LOR {
+			a, ok1 := classNames(be.X, depth)
+			b, ok2 := classNames(be.Y, depth)
+			return append(a, b...), ok1 && ok2
+		}
+		call, ok := e.(*ast.CallExpr)
+		if !ok {
+			return nil, false
+		}
+		if core.IsCallTo(info, call, equals) && len(call.Args) == 1 {
+			inner, ok := ast.Unparen(call.Args[0]).(*ast.CallExpr)
+			if !ok || len(inner.Args) != 0 {
+				return nil, false
+			}
+			id, ok := ast.Unparen(inner.Fun).(*ast.Ident)
+			if !ok {
+				return nil, false
+			}
+			v, ok := info.ObjectOf(id).(*types.Var)
+			if !ok || v.Parent() != syn.Types.Scope() {
+				return nil, false
+			}
+			return []string{core.BaseName(v)}, true
+		}
+		// a helper of the package whose body is a single `return <such a disjunction>`
+		if fn := core.Callee(info, call); fn != nil && fn.Pkg() == syn.Types && depth < 2 {
+			hd, _ := p.DeclOf(fn)
+			if hd != nil && hd.Body != nil && len(hd.Body.List) == 1 {
+				if rs, ok := hd.Body.List[0].(*ast.ReturnStmt); ok && len(rs.Results) == 1 {
+					return classNames(rs.Results[0], depth+1)
+				}
+			}
+		}
+		return nil, false
+	}
+	n := 0
+	ord := map[string]int{}
+	var visitCond func(e ast.Expr)
+	visitCond = func(e ast.Expr) {
+		e = ast.Unparen(e)
+		if be, ok := e.(*ast.BinaryExpr); ok && be.Op == token.LOR {
+			visitCond(be.X)
+			visitCond(be.Y)
+			return
+		}
+		cjs := conjuncts(e)
+		kind := ""
+		for _, cj := range cjs {
+			if be, ok := ast.Unparen(cj).(*ast.BinaryExpr); ok && be.Op == token.EQL && core.FieldOf(info, be.X) == tField {
+				if id, ok := ast.Unparen(be.Y).(*ast.Ident); ok {
+					if k, ok := info.ObjectOf(id).(*types.Const); ok {
+						if _, isB := boundaryClassTable[core.BaseName(k)]; isB {
+							kind = core.BaseName(k)
+						}
+					}
+				}
+			}
+		}
+		if kind == "" {
+			return
+		}
+		for _, cj := range cjs {
+			set, ch := mentionsSetOrCh(cj)
+			if !set && !ch {
+				continue
+			}
+			n++
+			ord[kind]++
+			key := fmt.Sprintf("canBeMadeAtomic / %s arm #%d relates the loop to the boundary through a listed class or the dialect's word predicate", kind, ord[kind])
+			if set {
+				names, ok := classNames(cj, 0)
+				if !ok {
+					c.Bad(key, cj.Pos(), "`%s` is not an identity test against predefined classes: a predicate that inspects parts of the class (range end points, listed characters) does not show that EVERY member is a word character, and the loop loses the backtracking it needs when a member is not", types.ExprString(cj))
+					continue
+				}
+				bad := ""
+				for _, nm := range names {
+					if _, listed := boundaryClassTable[kind][nm]; !listed {
+						bad = nm
+					}
+				}
+				if bad != "" {
+					c.Bad(key, cj.Pos(), "%s is not a class recorded as consisting of word characters only (for %s)", bad, kind)
+				} else {
+					c.OK(key, cj.Pos(), "classes %v", names)
+				}
+				continue
+			}
+			// character form: [!]Pred(n.Ch)
+			x := ast.Unparen(cj)
+			if u, ok := x.(*ast.UnaryExpr); ok && u.Op == token.NOT {
+				x = ast.Unparen(u.X)
+			}
+			call, ok := x.(*ast.CallExpr)
+			fn := (*types.Func)(nil)
+			if ok {
+				fn = core.Callee(info, call)
+			}
+			c.Check(fn != nil && core.BaseName(fn) == boundaryPredTable[kind], key, cj.Pos(), "`%s`: expected the word predicate %s of this boundary's dialect applied to the loop's character", types.ExprString(cj), boundaryPredTable[kind])
+		}
+	}
+	ast.Inspect(fd.Body, func(x ast.Node) bool {
+		if ifs, ok := x.(*ast.IfStmt); ok {
+			visitCond(ifs.Cond)
+		}
+		return true
+	})
+	if n == 0 {
+		c.Anchor("boundary arms in canBeMadeAtomic")
+		return
+	}
+	// the listed positive classes against the source
+	// (a) DigitClass: its categories are among those IsWordChar tests
+	wordCats := map[string]bool{}
+	if wd, _ := p.DeclOf(p.LookupFunc("syntax", "IsWordChar")); wd != nil {
+		ast.Inspect(wd.Body, func(x ast.Node) bool {
+			if ie, ok := x.(*ast.IndexExpr); ok {
+				if s, ok := stringLit(info, ie.Index); ok {
+					wordCats[s] = true
+				}
+			}
+			if sel, ok := x.(*ast.SelectorExpr); ok {
+				if pk, ok := sel.X.(*ast.Ident); ok && pk.Name == "unicode" {
+					wordCats[sel.Sel.Name] = true
+				}
+			}
+			return true
+		})
+	}
+	initOf := func(name string) *ast.CallExpr {
+		v := p.LookupObj("syntax", name)
+		if v == nil {
+			return nil
+		}
+		for _, f := range syn.Syntax {
+			for _, d := range f.Decls {
+				gd, ok := d.(*ast.GenDecl)
+				if !ok {
+					continue
+				}
+				for _, sp := range gd.Specs {
+					vs, ok := sp.(*ast.ValueSpec)
+					if !ok {
+						continue
+					}
+					for i, id := range vs.Names {
+						if info.Defs[id] == v && i < len(vs.Values) {
+							call, _ := vs.Values[i].(*ast.CallExpr)
+							return call
+						}
+					}
+				}
+			}
+		}
+		return nil
+	}
+	if call := initOf("DigitClass"); call != nil && len(call.Args) >= 3 {
+		okAll := true
+		var cats []string
+		for _, a := range call.Args[2:] {
+			s, ok := stringLit(info, a)
+			cats = append(cats, s)
+			if !ok || !wordCats[s] {
+				okAll = false
+			}
+		}
+		neg := false
+		for _, a := range call.Args[:2] {
+			if tv, ok := info.Types[a]; ok && tv.Value != nil && tv.Value.String() == "true" {
+				neg = true
+			}
+		}
+		c.Check(okAll && !neg, "DigitClass / consists of word characters only", call.Pos(), "categories %v, negated %v; categories IsWordChar tests: %d", cats, neg, len(wordCats))
+	} else {
+		c.Anchor("initialiser of syntax.DigitClass")
+	}
+	// (b) ECMADigitClass ranges inside ECMAWordClass ranges
+	runesOf := func(name string) ([]int64, bool) {
+		call := initOf(name)
+		if call == nil || len(call.Args) < 1 {
+			return nil, false
+		}
+		id, ok := ast.Unparen(call.Args[0]).(*ast.Ident)
+		if !ok {
+			return nil, false
+		}
+		tbl := info.ObjectOf(id)
+		for _, f := range syn.Syntax {
+			for _, d := range f.Decls {
+				gd, ok := d.(*ast.GenDecl)
+				if !ok {
+					continue
+				}
+				for _, sp := range gd.Specs {
+					vs, ok := sp.(*ast.ValueSpec)
+					if !ok {
+						continue
+					}
+					for i, vid := range vs.Names {
+						if info.Defs[vid] == tbl && i < len(vs.Values) {
+							cl, ok := vs.Values[i].(*ast.CompositeLit)
+							if !ok {
+								return nil, false
+							}
+							var out []int64
+							for _, e := range cl.Elts {
+								k, ok := core.ConstInt(info, e)
+								if !ok {
+									return nil, false
+								}
+								out = append(out, k)
+							}
+							return out, true
+						}
+					}
+				}
+			}
+		}
+		return nil, false
+	}
+	dg, ok1 := runesOf("ECMADigitClass")
+	wd, ok2 := runesOf("ECMAWordClass")
+	if !ok1 || !ok2 || len(dg)%2 != 0 || len(wd)%2 != 0 {
+		c.Anchor("range tables of ECMADigitClass / ECMAWordClass")
+		return
+	}
+	inside := true
+	for i := 0; i+1 < len(dg); i += 2 {
+		cov := false
+		for j := 0; j+1 < len(wd); j += 2 {
+			if wd[j] <= dg[i] && dg[i+1] <= wd[j+1] {
+				cov = true
+			}
+		}
+		if !cov {
+			inside = false
+		}
+	}
+	c.Check(inside, "ECMADigitClass / consists of ECMAScript word characters only", token.NoPos, "digit ranges %v, word ranges %v (half-open pairs)", dg, wd)
+}
+
+// ---------------------------------------------------------------------------
+// R-DISTINCT: knownDistinctSets asserts "these two classes share no
+// character" without looking at their members; MayOverlap answers "no
+// overlap" on its word, and the auto-atomic rewrite removes backtracking on
+// MayOverlap's.  The only sound basis is identity of BOTH operands with
+// predefined classes, and every pair so listed is evaluated here, from the
+// classes' own initialisers in the source and the Unicode tables of the
+// toolchain, over all code points.  Reasoning by category names ("\w has no
+// punctuation") is refused: \w contains Pc.
+// ---------------------------------------------------------------------------
+
+// predefClassEval builds a membership predicate for a predefined class from
+// its initialiser: getCharSetFromCategoryString(negSet, negCat, cats...) or
+// getCharSetFromOldString(table, negate).
+func predefClassEval(c *core.Ctx, name string) (func(rune) bool, bool) {
+	p := c.P
+	syn := p.Pkg("syntax")
+	info := syn.TypesInfo
+	findInit := func(obj types.Object) ast.Expr {
+		for _, f := range syn.Syntax {
+			for _, d := range f.Decls {
+				gd, ok := d.(*ast.GenDecl)
+				if !ok {
+					continue
+				}
+				for _, sp := range gd.Specs {
+					vs, ok := sp.(*ast.ValueSpec)
+					if !ok {
+						continue
+					}
+					for i, id := range vs.Names {
+						if info.Defs[id] == obj && i < len(vs.Values) {
+							return vs.Values[i]
+						}
+					}
+				}
+			}
+		}
+		return nil
+	}
+	v := p.LookupObj("syntax", name)
+	if v == nil {
+		return nil, false
+	}
+	call, _ := findInit(v).(*ast.CallExpr)
+	if call == nil {
+		return nil, false
+	}
+	fn := core.Callee(info, call)
+	if fn == nil {
+		return nil, false
+	}
+	boolArg := func(e ast.Expr) (bool, bool) {
+		tv, ok := info.Types[e]
+		if !ok || tv.Value == nil {
+			return false, false
+		}
+		return tv.Value.String() == "true", true
+	}
+	switch core.BaseName(fn) {
+	case "getCharSetFromCategoryString":
+		if len(call.Args) < 3 {
+			return nil, false
+		}
+		negSet, ok1 := boolArg(call.Args[0])
+		negCat, ok2 := boolArg(call.Args[1])
+		if !ok1 || !ok2 {
+			return nil, false
+		}
+		// the word pseudo-category as IsWordChar defines it
+		wordCats := []*unicode.RangeTable{}
+		wordExtra := map[rune]bool{}
+		if wd, _ := p.DeclOf(p.LookupFunc("syntax", "IsWordChar")); wd != nil {
+			ast.Inspect(wd.Body, func(x ast.Node) bool {
+				if ie, ok := x.(*ast.IndexExpr); ok {
+					if s, ok := stringLit(info, ie.Index); ok {
+						if t := unicode.Categories[s]; t != nil {
+							wordCats = append(wordCats, t)
+						}
+					}
+				}
+				if bl, ok := x.(*ast.BasicLit); ok && bl.Kind == token.CHAR {
+					if k, ok := core.ConstInt(info, bl); ok {
+						wordExtra[rune(k)] = true
+					}
+				}
+				return true
+			})
+		}
+		wordText, _ := p.LookupObj("syntax", "WordCategoryText").(*types.Const)
+		spaceText, _ := p.LookupObj("syntax", "SpaceCategoryText").(*types.Const)
+		if wordText == nil || spaceText == nil || len(wordCats) == 0 {
+			return nil, false
+		}
+		unq := func(k *types.Const) string { s, _ := strconv.Unquote(k.Val().ExactString()); return s }
+		var preds []func(rune) bool
+		for _, a := range call.Args[2:] {
+			s, ok := stringLit(info, a)
+			if !ok {
+				return nil, false
+			}
+			switch {
+			case s == unq(wordText):
+				preds = append(preds, func(r rune) bool { return unicode.In(r, wordCats...) || wordExtra[r] })
+			case s == unq(spaceText):
+				preds = append(preds, unicode.IsSpace)
+			default:
+				t := unicode.Categories[s]
+				if t == nil {
+					return nil, false
+				}
+				preds = append(preds, func(r rune) bool { return unicode.Is(t, r) })
+			}
+		}
+		return func(r rune) bool {
+			in := false
+			for _, pr := range preds {
+				if pr(r) != negCat {
+					in = true
+				}
+			}
+			return in != negSet
+		}, true
+	case "getCharSetFromOldString":
+		if len(call.Args) != 2 {
+			return nil, false
+		}
+		neg, ok := boolArg(call.Args[1])
+		if !ok {
+			return nil, false
+		}
+		var cl *ast.CompositeLit
+		switch a := ast.Unparen(call.Args[0]).(type) {
+		case *ast.CompositeLit:
+			cl = a
+		case *ast.Ident:
+			cl, _ = findInit(info.ObjectOf(a)).(*ast.CompositeLit)
+		}
+		if cl == nil {
+			return nil, false
+		}
+		var bounds []rune
+		for _, e := range cl.Elts {
+			k, ok := core.ConstInt(info, e)
+			if !ok {
+				return nil, false
+			}
+			bounds = append(bounds, rune(k))
+		}
+		// the old string format: alternating starts of "in" and "out" stretches
+		return func(r rune) bool {
+			in := false
+			for _, b := range bounds {
+				if r >= b {
+					in = !in
+				} else {
+					break
+				}
+			}
+			return in != neg
+		}, true
+	}
+	return nil, false
+}
+
+func RDistinct(c *core.Ctx) {
+	c.Rule("R-DISTINCT", "knownDistinctSets concludes 'no common character' only from identity of BOTH operands with predefined classes (a conjunction of two Equals-disjunctions, directly, under an if, or through boolean locals), and every pair of classes so listed is disjoint when the two are evaluated from their initialisers over all code points; no conclusion is drawn from category names or tables", 4)
+	p := c.P
+	syn := p.Pkg("syntax")
+	info := syn.TypesInfo
+	kd := p.LookupFunc("syntax", "knownDistinctSets")
+	fd, _ := p.DeclOf(kd)
+	equals := p.LookupFunc("syntax", "CharSet.Equals")
+	if fd == nil || equals == nil || fd.Type.Params == nil {
+		c.Anchor("syntax.knownDistinctSets / CharSet.Equals")
+		return
+	}
+	c.Visit("syntax.knownDistinctSets")
+	var params []types.Object
+	for _, f := range fd.Type.Params.List {
+		for _, id := range f.Names {
+			params = append(params, info.ObjectOf(id))
+		}
+	}
+	if len(params) != 2 {
+		c.Anchor("the two parameters of knownDistinctSets")
+		return
+	}
+	// boolean locals assigned once
+	locals := map[types.Object]ast.Expr{}
+	ast.Inspect(fd.Body, func(x ast.Node) bool {
+		if as, ok := x.(*ast.AssignStmt); ok && as.Tok == token.DEFINE && len(as.Lhs) == len(as.Rhs) {
+			for i, l := range as.Lhs {
+				if id, ok := l.(*ast.Ident); ok && isBoolExpr(info, as.Rhs[i]) {
+					locals[info.ObjectOf(id)] = as.Rhs[i]
+				}
+			}
+		}
+		return true
+	})
+	// side: a disjunction of prm.Equals(P()) -> class names and which parameter
+	var side func(e ast.Expr) (int, []string, bool)
+	side = func(e ast.Expr) (int, []string, bool) {
+		e = ast.Unparen(e)
+		if id, ok := e.(*ast.Ident); ok {
+			if def, ok := locals[info.ObjectOf(id)]; ok {
+				return side(def)
+			}
+		}
+		if be, ok := e.(*ast.BinaryExpr); ok && be.Op == token.LOR {
+			p1, a, ok1 := side(be.X)
+			p2, b, ok2 := side(be.Y)
+			return p1, append(a, b...), ok1 && ok2 && p1 == p2
+		}
+		call, ok := e.(*ast.CallExpr)
+		if !ok || !core.IsCallTo(info, call, equals) || len(call.Args) != 1 {
+			return -1, nil, false
+		}
+		sel, ok := call.Fun.(*ast.SelectorExpr)
+		if !ok {
+			return -1, nil, false
+		}
+		rid, ok := ast.Unparen(sel.X).(*ast.Ident)
+		if !ok {
+			return -1, nil, false
+		}
+		which := -1
+		for i, prm := range params {
+			if info.ObjectOf(rid) == prm {
+				which = i
+			}
+		}
+		inner, ok := ast.Unparen(call.Args[0]).(*ast.CallExpr)
+		if !ok || len(inner.Args) != 0 || which < 0 {
+			return -1, nil, false
+		}
+		id, ok := ast.Unparen(inner.Fun).(*ast.Ident)
+		if !ok {
+			return -1, nil, false
+		}
+		v, ok := info.ObjectOf(id).(*types.Var)
+		if !ok || v.Parent() != syn.Types.Scope() {
+			return -1, nil, false
+		}
+		return which, []string{core.BaseName(v)}, true
+	}
+	type pair struct{ a, b string }
+	var pairs []pair
+	// claim: an expression whose truth makes the function answer true
+	var claim func(e ast.Expr) bool
+	claim = func(e ast.Expr) bool {
+		e = ast.Unparen(e)
+		if tv, ok := info.Types[e]; ok && tv.Value != nil {
+			return tv.Value.String() == "false" // `return false` claims nothing
+		}
+		if id, ok := e.(*ast.Ident); ok {
+			if def, ok := locals[info.ObjectOf(id)]; ok {
+				return claim(def)
+			}
+		}
+		if be, ok := e.(*ast.BinaryExpr); ok && be.Op == token.LOR {
+			return claim(be.X) && claim(be.Y)
+		}
+		cjs := conjuncts(e)
+		if len(cjs) != 2 {
+			return false
+		}
+		p1, a, ok1 := side(cjs[0])
+		p2, b, ok2 := side(cjs[1])
+		if !ok1 || !ok2 || p1 == p2 {
+			return false
+		}
+		if p1 == 1 {
+			a, b = b, a
+		}
+		for _, x := range a {
+			for _, y := range b {
+				pairs = append(pairs, pair{x, y})
+			}
+		}
+		return true
+	}
+	formOK := true
+	var badAt token.Pos
+	var walk func(list []ast.Stmt, guarded bool)
+	walk = func(list []ast.Stmt, guarded bool) {
+		for _, st := range list {
+			switch x := st.(type) {
+			case *ast.ReturnStmt:
+				if len(x.Results) != 1 {
+					formOK, badAt = false, x.Pos()
+					continue
+				}
+				if tv, ok := info.Types[x.Results[0]]; ok && tv.Value != nil {
+					if tv.Value.String() == "true" && !guarded {
+						formOK, badAt = false, x.Pos()
+					}
+					continue
+				}
+				if !claim(x.Results[0]) {
+					formOK, badAt = false, x.Pos()
+				}
+			case *ast.IfStmt:
+				if x.Init != nil || x.Else != nil || !claim(x.Cond) {
+					formOK, badAt = false, x.Pos()
+					continue
+				}
+				walk(x.Body.List, true)
+			case *ast.AssignStmt:
+				// boolean locals (collected above); anything else is not understood
+				for i, l := range x.Lhs {
+					id, ok := l.(*ast.Ident)
+					if !ok || x.Tok != token.DEFINE || i >= len(x.Rhs) || !isBoolExpr(info, x.Rhs[i]) {
+						formOK, badAt = false, x.Pos()
+					}
+					_ = id
+				}
+			default:
+				formOK, badAt = false, st.Pos()
+			}
+		}
+	}
+	walk(fd.Body.List, false)
+	if !formOK {
+		c.Bad("knownDistinctSets / distinctness follows only from identity of both operands with predefined classes", badAt, "this statement lets the function answer from something other than `set1.Equals(A()) … && set2.Equals(B()) …`: a conclusion drawn from category names or tables is not checked against the characters (\\w contains the connector punctuation Pc; \\d and \\p{N} overlap)")
+	} else {
+		c.OK("knownDistinctSets / distinctness follows only from identity of both operands with predefined classes", fd.Pos(), "%d class pairs listed", len(pairs))
+	}
+	evals := map[string]func(rune) bool{}
+	for _, pr := range pairs {
+		key := fmt.Sprintf("knownDistinctSets / %s and %s share no character", pr.a, pr.b)
+		for _, nm := range []string{pr.a, pr.b} {
+			if _, done := evals[nm]; !done {
+				f, ok := predefClassEval(c, nm)
+				if !ok {
+					f = nil
+				}
+				evals[nm] = f
+			}
+		}
+		fa, fb := evals[pr.a], evals[pr.b]
+		if fa == nil || fb == nil {
+			c.Unknown(key, fd.Pos(), "the initialiser of one of the classes could not be evaluated")
+			continue
+		}
+		common := rune(-1)
+		for r := rune(0); r <= unicode.MaxRune; r++ {
+			if fa(r) && fb(r) {
+				common = r
+				break
+			}
+		}
+		c.Check(common < 0, key, fd.Pos(), "U+%04X is in both classes", common)
+	}
+	if len(pairs) == 0 && formOK {
+		c.Anchor("class pairs in knownDistinctSets")
 	}
 }
